@@ -103,9 +103,10 @@ def damaged_inputs(rng, tier, base, m):
     res = []
     n_trunc, n_flip, n_rand = (8, 10, 8) if tier == "quick" else (40, 120, 60)
     head = base[:1200]
-    cuts = sorted(set([0, 1, 2, 3, 4, 5, 7, 11, 16] + [rng.randrange(1, max(2, len(head))) for _ in range(n_trunc * 2)]))
+    dense = list(range(0, 24)) if tier == "quick" else list(range(0, 160))
+    cuts = sorted(set(dense + [rng.randrange(1, max(2, len(head))) for _ in range(n_trunc * 2)]))
     cuts = [c for c in cuts if c <= len(head)]
-    for c in (cuts if tier == "thorough" else rng.sample(cuts, min(len(cuts), n_trunc + 4))):
+    for c in (cuts if tier == "thorough" else rng.sample(cuts, min(len(cuts), n_trunc + 8))):
         res.append(("trunc%d" % c, head[:c]))
     for k in range(n_flip):
         q = bytearray(base[:rng.choice([60, 200, 600, 1200])])
@@ -124,6 +125,90 @@ def damaged_inputs(rng, tier, base, m):
     return res
 
 
+class BitWriter:
+    def __init__(self):
+        self.bits = []
+
+    def put(self, v, n):
+        for i in range(n - 1, -1, -1):
+            self.bits.append((v >> i) & 1)
+        return self
+
+    def rand(self, rng, nbytes):
+        for _ in range(8 * nbytes):
+            self.bits.append(rng.randrange(2))
+        return self
+
+    def bytes(self):
+        b = self.bits + [0] * (-len(self.bits) % 8)
+        return bytes(sum(b[i + j] << (7 - j) for j in range(8)) for i in range(0, len(b), 8))
+
+
+LHNEW = {"-lh4-": (4, 510), "-lh5-": (4, 510), "-lh6-": (5, 510), "-lh7-": (5, 510), "-lhx-": (5, 510), "-lk7-": (6, 289)}
+
+
+def crafted_inputs(rng, tier, m):
+    """hand-made headers followed by random bits: corners that damaged real streams rarely reach"""
+    res = []
+    reps = 1 if tier == "quick" else 4
+    if m in LHNEW:
+        ob, ncodes = LHNEW[m]
+        # all three tables in their n = 0 form: one code symbol c, one offset symbol b
+        offs = sorted(set([0, 1, 2, 3, 13, 14, 15, (1 << ob) - 1, (1 << ob) - 2] + [b for b in range(24, 32) if b < (1 << ob)]
+                          + ([56, 57, 58, 59, 60, 61, 62, 63] if ob == 6 else [])))
+        for b in offs:
+            for c in ([256, 300, 509, 511] if ncodes == 510 else [256, 263, 264, 287, 288, 400]):
+                for pad in range(reps):
+                    w = BitWriter().put(rng.choice([3, 40, 2000]), 16).put(0, 5).put(rng.randrange(32), 5)
+                    w.put(0, 9).put(c, 9).put(0, ob).put(b, ob).put(0, pad).rand(rng, 60)
+                    res.append(("single c=%d b=%d" % (c, b), w.bytes()))
+        # blocks with zero commands in front of a block made of literals 'A'
+        for k in (1, 3):
+            w = BitWriter()
+            for _ in range(k):
+                w.put(0, 16).put(0, 5).put(0, 5).put(0, 9).put(65, 9).put(0, ob).put(0, ob)
+            w.put(5, 16).put(0, 5).put(0, 5).put(0, 9).put(65, 9).put(0, ob).put(0, ob).rand(rng, 3)
+            res.append(("%d empty blocks" % k, w.bytes()))
+        # unary-extended lengths: short, and long enough to wrap the uint8_t code_lengths[] entry
+        for ones in (1, 9, 17, 30, 248, 249, 250, 260, 600):
+            w = BitWriter().put(7, 16).put(3, 5).put(7, 3)
+            for _ in range(ones):
+                w.put(1, 1)
+            w.put(0, 1).put(1, 3).put(1, 3).put(0, 2).rand(rng, 40)
+            res.append(("temp length 7+%d" % ones, w.bytes()))
+            w = BitWriter().put(7, 16).put(0, 5).put(3, 5).put(0, 9).put(257, 9).put(2, ob).put(7, 3)
+            for _ in range(ones):
+                w.put(1, 1)
+            w.put(0, 1).put(1, 3).rand(rng, 40)
+            res.append(("offset length 7+%d" % ones, w.bytes()))
+        res.append(("unterminated unary", BitWriter().put(7, 16).put(3, 5).put(7, 3).bytes() + b"\xff" * 50))
+        # random tables: temp table with every count, then random bits
+        for n in range(1, 32):
+            for _ in range(reps):
+                w = BitWriter().put(rng.choice([1, 9, 300]), 16).put(n, 5).rand(rng, rng.choice([4, 30, 120]))
+                res.append(("temp n=%d random" % n, w.bytes()))
+    if m == "-pm2-":
+        # one code symbol n-1 (m = 0); n >= 10 (except 29) also asks for offset tables, which are then
+        # re-read from random bits after 1, 2, 4, 8 KiB of output (mostly incomplete: stale array slots)
+        for n in range(0, 32):
+            for _ in range(reps * 2):
+                w = BitWriter().put(rng.randrange(2), 1).put(n, 5).put(0, 3)
+                if rng.random() < 0.5:
+                    w.put(1, 3).put(2, 3).put(3, 3).put(3, 3).put(0, 3)       # a complete first offset code
+                w.rand(rng, rng.choice([8, 700, 3000]))
+                res.append(("single code n=%d" % n, w.bytes()))
+        # a real code table with field width 0..7, random fields
+        for wd in range(8):
+            for mn in (1, 2, 7):
+                w = BitWriter().put(0, 1).put(rng.randrange(1, 32), 5).put(mn, 3).put(wd, 3).rand(rng, 200)
+                res.append(("code table width %d min %d" % (wd, mn), w.bytes()))
+    if m == "-pm1-":
+        for t in range(32):
+            w = BitWriter().put(t, 5).put(1, 1).rand(rng, rng.choice([2, 40, 300]))
+            res.append(("tree %d" % t, w.bytes()))
+    return res
+
+
 def invalid_jobs(tier, streams, sc, seed):
     jobs = {}
     cap = 3000 if tier == "quick" else 6000
@@ -139,7 +224,15 @@ def invalid_jobs(tier, streams, sc, seed):
             path = os.path.join(sc, "d%05d_%s_%s.bin" % (n, m.strip("-"), kind))
             open(path, "wb").write(data)
             jobs.setdefault(m, []).append(((cap, m, path, "R%d,L,C" % (cap + 9)), "%s of %s" % (kind, tag)))
-    if tier == "thorough":
+    for m in sorted({s[1] for s in streams}):
+        rng = random.Random("%d/crafted/%s" % (seed, m))
+        for kind, data in crafted_inputs(rng, tier, m):
+            n += 1
+            path = os.path.join(sc, "c%05d_%s.bin" % (n, m.strip("-")))
+            open(path, "wb").write(data)
+            ccap = 9000 if m == "-pm2-" else cap          # -pm2-: reach the table re-reads after 1, 2, 4, 8 KiB
+            jobs.setdefault(m, []).append(((ccap, m, path, "R%d,L,C" % (ccap + 9)), "crafted: " + kind))
+    if tier == "thorough" and any(s[1] == "-lh1-" for s in streams):
         rng = random.Random(seed)
         path = os.path.join(sc, "lh1_reconst.bin")
         open(path, "wb").write(bytes(rng.randrange(256) for _ in range(66000)))
